@@ -6,7 +6,7 @@ fail=0
 echo "== unchanged tree"
 for p in $(python3 run.py list); do QV_EVIDENCE_DIR=/tmp/qv-evidence-scratch python3 run.py check $p >/tmp/rg.out 2>&1 || { echo "  FAIL $p"; fail=1; }; done
 echo "== seeded changes"
-for d in seeded/*/; do
+for d in /verif/seeded/*/; do
   id=$(basename $d); prop=$(python3 -c "import json;print(json.load(open('$d/meta.json'))['property'])")
   git -C /repo apply --check $d/patch.diff 2>/dev/null || { echo "  $id: patch does not apply to the current tree"; continue; }
   git -C /repo apply $d/patch.diff
@@ -16,7 +16,7 @@ for d in seeded/*/; do
   echo "  $id $prop rc=$rc $exp"
 done
 echo "== behaviour-preserving refactors"
-for d in refactors/*/; do
+for d in /verif/refactors/*/; do
   [ -f $d/patch.diff ] || continue
   git -C /repo apply --check $d/patch.diff 2>/dev/null || { echo "  $(basename $d): does not apply"; continue; }
   git -C /repo apply $d/patch.diff
